@@ -53,8 +53,8 @@ PROPS = {
     "C01": {
         "engine": "kani", "module": "c01", "timeout": {"quick": 900, "thorough": 2400},
         "functions": ["functions::BuiltInFunction::call (all arms reachable with scalar / short-list arguments)", "expressions::evaluate_ast (PostfixOp, UnaryOp, Spread, Access)"],
-        "bounds": "arguments: any f64 / bool / null, lists of 0..2 numbers; loops proportional to a numeric argument (range longer than 1 element, factorial above 6) are assumed away and stated",
-        "outside": "parsing, source formatting, error rendering (ariadne), JSON, records, lambdas as arguments, strings, float->text inside to_string/format",
+        "bounds": "arguments: any f64 (doubles in every numeric position), lists of 0..2 numbers; one harness per (built-in, shape) for the shapes d, dd, l, ld, ll, ldd; loops proportional to a numeric argument (range longer than 1 element, factorial above 6) are assumed away and stated",
+        "outside": "parsing, source formatting, error rendering (ariadne), JSON, records, lambdas as arguments, strings, float->text inside to_string/format, boolean / null arguments to built-ins (the symbolic-kind shapes are unregistered c01_x_* harnesses), includes (Value::reify is mis-modelled by Kani, DESIGN 2(12))",
         "assumptions": ["panic-freedom harnesses are `cut` harnesses: constructing an anyhow type-error value ends the path (what follows is `?` propagation)"],
     },
     "C18": {
